@@ -13,7 +13,8 @@ What is a site (one row per syntactic occurrence):
   np-global         np.random.<f>(...) / numpy.random.<f>(...)                    numpyGlobal
   np-seed-write     np.random.seed(...)                                           numpyGlobal
   rng-ctor          RandomState(x) / default_rng(x) / random.Random(x), x given   seeded
-  rng-ctor-noseed   RandomState() / default_rng() / random.Random()               osEntropy
+  rng-ctor-noseed   RandomState() / default_rng() / random.Random(), or a seed     osEntropy
+                    expression with a None branch (`seed or None`)
   py-global         random.<f>(...) with `random` the stdlib module               pythonGlobal
   rvs-unseeded      <expr>.rvs(...) without random_state                          scipyGlobal
   rvs-seeded        <expr>.rvs(..., random_state=<expr>)                          seeded
@@ -201,6 +202,17 @@ def _txt(node, limit=90):
         s = "<?>"
     s = " ".join(s.split())
     return s if len(s) <= limit else s[: limit - 3] + "..."
+
+
+def _may_be_none(expr):
+    """syntactic: the expression has a branch that is the constant None (`a or None`, `a and b or None`, `x if c else None`)"""
+    if isinstance(expr, ast.Constant):
+        return expr.value is None
+    if isinstance(expr, ast.BoolOp):
+        return any(_may_be_none(v) for v in expr.values) if isinstance(expr.op, ast.Or) else _may_be_none(expr.values[-1])
+    if isinstance(expr, ast.IfExp):
+        return _may_be_none(expr.body) or _may_be_none(expr.orelse)
+    return False
 
 
 def _dotted(node):
@@ -513,7 +525,12 @@ class _FileScan(ast.NodeVisitor):
         has_arg = bool(node.args) or any(k.arg in ("seed", "x") for k in node.keywords)
         if has_arg and not (node.args and isinstance(node.args[0], ast.Constant) and node.args[0].value is None):
             arg = node.args[0] if node.args else node.keywords[0].value
-            self.add(node, "rng-ctor", "seeded", f"{name}({_txt(arg, 50)})" + self._param_note(arg))
+            if _may_be_none(arg):
+                # RandomState(seed or None), RandomState(x if c else None): falsy / missing seeds fall back to OS entropy
+                self.add(node, "rng-ctor-noseed", "osEntropy",
+                         f"{name}({_txt(arg, 50)}): the seed expression can evaluate to None (e.g. for the falsy seed 0)")
+            else:
+                self.add(node, "rng-ctor", "seeded", f"{name}({_txt(arg, 50)})" + self._param_note(arg))
         else:
             self.add(node, "rng-ctor-noseed", "osEntropy", f"{name}() is seeded from OS entropy")
 
@@ -643,8 +660,9 @@ REACH_RULES = [
     dict(name="search-unseeded-ctor", file="hpo/_search.py", func="Search.__init__", kind="rng-ctor-noseed",
          reach="outOfScope",
          why="`else` branch taken only for random_state=None / non-int non-RandomState; the property quantifies over integer seeds "
-             "(guard: the int branch `type(random_state) is int` still precedes it)",
-         guard=lambda src: _has_text(src, "hpo/_search.py", r"if type\(random_state\) is int:.*?RandomState\(random_state\).*?else:\s*\n\s*self\._random_state = np\.random\.RandomState\(\)")),
+             "(guard: an integer-test branch that seeds RandomState with the integer still precedes it)",
+         guard=lambda src: _has_text(src, "hpo/_search.py", r"(if type\(random_state\) is int|if isinstance\(random_state, numbers\.Integral\)).*?RandomState\((random_state|self\._seed)\)"
+                                     r".*?else:\s*\n\s*self\._random_state = np\.random\.RandomState\(\)")),
     dict(name="search-clock-logging", file="hpo/_search.py", func="Search.*", kind="clock", text=r"time\.time\(\)",
          reach="noFlow", why="elapsed-time values are only formatted into logging.info messages"),
     dict(name="search-backup-name", file="hpo/_search.py", func="Search.__init__", kind="clock", text=r"strftime",
